@@ -10,6 +10,8 @@ import (
 	"bytes"
 	"context"
 	"crypto/ecdsa"
+	"crypto/elliptic"
+	crand "crypto/rand"
 	"crypto/tls"
 	"crypto/x509"
 	"encoding/gob"
@@ -154,12 +156,12 @@ type c16Acc struct {
 }
 
 type c16Hs struct {
-	rnd, cert int
-	stage     string // verify | route | send | done
-	heldAtHello bool // ground truth: an Accept was waiting for the hello-random's secret when the hello arrived
-	shown     *tls.Certificate
-	ch        chan<- net.Conn
-	owner     int // the acceptor registered for the secret when the channel was fetched
+	rnd, cert   int
+	stage       string // verify | route | send | done
+	heldAtHello bool   // ground truth: an Accept was waiting for the hello-random's secret when the hello arrived
+	shown       *tls.Certificate
+	ch          chan<- net.Conn
+	owner       int // the acceptor registered for the secret when the channel was fetched
 }
 
 // c16Controlled runs one generated macro-step sequence on a real Listener (no network): acceptors are
@@ -170,7 +172,7 @@ func c16Controlled(out *vlib.Out, r *vlib.Rand, nops int) {
 	ids := []int{0, 1, 2, 3, 9} // 9 is never registered
 	accs := map[int]*c16Acc{}
 	hss := map[int]*c16Hs{}
-	holder := map[int]int{}   // secret -> live acceptor (ground truth)
+	holder := map[int]int{} // secret -> live acceptor (ground truth)
 	var mops, outs []string
 	nextA, nextH := 0, 0
 	line := func() string { return "dtls|" + strings.Join(mops, ";") }
@@ -545,7 +547,87 @@ func c16Certificates(out *vlib.Out, r *vlib.Rand, n int) {
 			out.OracleFail("C16:certificate-accepted-for-other-secret", "a certificate verifies against one derived from a different secret (or hello-randoms collide)", replay)
 		}
 		out.Count("certs:derived-twice")
+		// forged look-alikes of the client and of the server certificate: same serial number, names, validity and
+		// usages (everything an observer of one handshake learns), but not signed by the key derived from the secret
+		for which, real := range []*tls.Certificate{c1, s1} {
+			for _, kind := range []string{"fresh-key", "right-public-key-foreign-signature", "signature-bit-flipped", "name-bit-flipped"} {
+				forged, err := c16Forge(real, kind)
+				if err != nil {
+					out.Count("certs:forgery-not-built:" + kind)
+					continue
+				}
+				out.Checked()
+				out.Count("certs:forged:" + kind)
+				if verifyCert(forged, real.Certificate[0]) == nil {
+					out.OracleFail("C16:forged-certificate-accepted", fmt.Sprintf("a look-alike of the derived %s certificate (%s) verifies against the derived one", []string{"client", "server"}[which], kind), replay+" forged="+kind)
+				}
+			}
+		}
 	}
+}
+
+// c16LookalikeTemplate copies every visible field of a derived certificate into a template.
+func c16LookalikeTemplate(real *tls.Certificate) (*x509.Certificate, *x509.Certificate, error) {
+	xc, err := x509.ParseCertificate(real.Certificate[0])
+	if err != nil {
+		return nil, nil, err
+	}
+	return &x509.Certificate{
+		SerialNumber: xc.SerialNumber, Subject: xc.Subject, DNSNames: xc.DNSNames, NotBefore: xc.NotBefore, NotAfter: xc.NotAfter,
+		KeyUsage: xc.KeyUsage, ExtKeyUsage: xc.ExtKeyUsage, BasicConstraintsValid: xc.BasicConstraintsValid, IsCA: xc.IsCA,
+		SignatureAlgorithm: xc.SignatureAlgorithm,
+	}, xc, nil
+}
+
+// c16Forge builds the DER bytes of a look-alike of `real` that the holder of the secret did not sign.
+func c16Forge(real *tls.Certificate, kind string) ([]byte, error) {
+	tpl, xc, err := c16LookalikeTemplate(real)
+	if err != nil {
+		return nil, err
+	}
+	switch kind {
+	case "fresh-key", "right-public-key-foreign-signature":
+		fresh, err := ecdsa.GenerateKey(elliptic.P256(), crand.Reader)
+		if err != nil {
+			return nil, err
+		}
+		var pub interface{} = fresh.Public()
+		if kind == "right-public-key-foreign-signature" {
+			pub = xc.PublicKey
+		}
+		return x509.CreateCertificate(crand.Reader, tpl, tpl, pub, fresh)
+	case "signature-bit-flipped":
+		der := append([]byte(nil), real.Certificate[0]...)
+		der[len(der)-1] ^= 0x01 // the last byte belongs to the signature value
+		return der, nil
+	case "name-bit-flipped":
+		der := append([]byte(nil), real.Certificate[0]...)
+		cn := []byte(xc.Subject.CommonName)
+		i := bytes.Index(der, cn)
+		if i < 0 || len(cn) == 0 {
+			return nil, fmt.Errorf("common name not found in the encoding")
+		}
+		der[i] ^= 0x01 // a signed field changes, the signature stays
+		return der, nil
+	}
+	return nil, fmt.Errorf("unknown kind")
+}
+
+// c16ForgedPair: a usable key pair under a look-alike certificate (for presenting it in a handshake)
+func c16ForgedPair(real *tls.Certificate) (*tls.Certificate, error) {
+	tpl, _, err := c16LookalikeTemplate(real)
+	if err != nil {
+		return nil, err
+	}
+	fresh, err := ecdsa.GenerateKey(elliptic.P256(), crand.Reader)
+	if err != nil {
+		return nil, err
+	}
+	der, err := x509.CreateCertificate(crand.Reader, tpl, tpl, fresh.Public(), fresh)
+	if err != nil {
+		return nil, err
+	}
+	return &tls.Certificate{Certificate: [][]byte{der}, PrivateKey: fresh}, nil
 }
 
 // ---------------------------------------------------------------------------------------------
@@ -559,12 +641,13 @@ type c16Pair struct {
 	dialDelay  time.Duration
 }
 
-func c16Concurrent(out *vlib.Out, r *vlib.Rand, n int) {
+// c16Concurrent returns (pairs whose session must be delivered if the machine keeps up, sessions delivered).
+func c16Concurrent(out *vlib.Out, r *vlib.Rand, n int) (expected, delivered int) {
 	l, err := Listen("udp", &net.UDPAddr{IP: net.IPv4(127, 0, 0, 1), Port: 0}, &Config{LogAuthFail: func(*net.IP) {}, LogOther: func(*net.IP) {}})
 	if err != nil {
 		out.Note("C16: cannot listen on loopback UDP: " + err.Error())
 		out.Count("skip:no-loopback-udp")
-		return
+		return 0, 0
 	}
 	defer l.Close()
 	addr := l.Addr().(*net.UDPAddr)
@@ -641,6 +724,9 @@ func c16Concurrent(out *vlib.Out, r *vlib.Rand, n int) {
 				return
 			}
 			out.Count("concurrent:delivered-to-matching-acceptor" + kind)
+			mu.Lock()
+			delivered++
+			mu.Unlock()
 			_, _ = conn.Write([]byte(fmt.Sprintf("ack:%d", secret)))
 			time.Sleep(30 * time.Millisecond)
 		case <-time.After(20 * time.Second):
@@ -691,6 +777,9 @@ func c16Concurrent(out *vlib.Out, r *vlib.Rand, n int) {
 	registered := map[int]bool{}
 	for _, p := range pairs {
 		registered[p.accSecret] = true
+		if p.dialSecret == p.accSecret && p.cancelAt == 0 {
+			expected++ // dialled with the registered secret and never cancelled (a refused duplicate must not matter)
+		}
 	}
 	for _, p := range pairs {
 		wg.Add(1)
@@ -717,13 +806,14 @@ func c16Concurrent(out *vlib.Out, r *vlib.Rand, n int) {
 		fail("C16:registration-leaked", fmt.Sprintf("all Accept calls returned; connToCert has %d entries, connMap has %d", nc, nh))
 	}
 	out.Count(fmt.Sprintf("concurrent:round-of-%d-pairs", n))
+	return expected, delivered
 }
 
 // ---------------------------------------------------------------------------------------------
 // sessions over the real pion stack (net.Pipe): same secret works and is a faithful byte stream,
 // different secrets do not complete the handshake
 
-func c16Session(out *vlib.Out, r *vlib.Rand, sameSecret bool, forceHbEqual bool) {
+func c16Session(out *vlib.Out, r *vlib.Rand, sameSecret bool, forceHbEqual bool) string {
 	server, client := net.Pipe()
 	sSecret := 300 + r.Intn(1000)
 	cSecret := sSecret
@@ -762,15 +852,16 @@ func c16Session(out *vlib.Out, r *vlib.Rand, sameSecret bool, forceHbEqual bool)
 	if !sameSecret {
 		if sr.err == nil && cr.err == nil {
 			out.OracleFail("C16:handshake-with-different-secrets", "Server and Client with different secrets both report an established session", replay)
-		} else {
-			out.Count("session:different-secrets-rejected")
+			return "accepted-both"
 		}
-		return
+		out.Count("session:different-secrets-rejected")
+		return "rejected"
 	}
 	if sr.err != nil || cr.err != nil {
-		// liveness under load is not the property; count it
+		// one slow handshake under load is not the property (counted); that at least one same-secret session
+		// completes and carries its data is asserted by the caller over the whole run
 		out.Count("session:same-secret-did-not-complete")
-		return
+		return "no-handshake"
 	}
 	// client -> server: a sequence of messages of many sizes, one of them equal to the heartbeat payload
 	hb := defaultConfig.Heartbeat
@@ -814,7 +905,7 @@ func c16Session(out *vlib.Out, r *vlib.Rand, sameSecret bool, forceHbEqual bool)
 	for _, m := range msgs {
 		if _, err := cr.c.Write(m); err != nil {
 			out.Count("session:write-error")
-			return
+			return "write-error"
 		}
 	}
 	deadline := time.Now().Add(20 * time.Second)
@@ -834,12 +925,15 @@ func c16Session(out *vlib.Out, r *vlib.Rand, sameSecret bool, forceHbEqual bool)
 	switch {
 	case bytes.Equal(g, full):
 		out.Count("session:stream-faithful")
+		return "faithful"
 	case withHbEqual && bytes.Equal(g, without):
 		out.Count("session:heartbeat-equal-message-swallowed")
 		out.OracleFail(c16SigHB, fmt.Sprintf("real session: a %d-byte application message equal to the heartbeat payload never reached the accepting side's reader (%d of %d bytes arrived)", len(hb), len(g), len(full)), replay+" msgs-with-heartbeat-equal")
+		return "swallowed"
 	case bytes.HasPrefix(full, g) || bytes.HasPrefix(without, g):
 		out.Count("session:incomplete-within-timeout") // slow machine: not a safety violation
-	default:
-		out.OracleFail("C16:stream-bytes-differ", fmt.Sprintf("real session: the accepting side read %d bytes that are not the concatenation of the %d bytes written", len(g), len(full)), replay)
+		return "incomplete"
 	}
+	out.OracleFail("C16:stream-bytes-differ", fmt.Sprintf("real session: the accepting side read %d bytes that are not the concatenation of the %d bytes written", len(g), len(full)), replay)
+	return "differ"
 }
